@@ -15,11 +15,11 @@ package boson
 // (0 farthest, 255 closest, 256 self)
 func Proximity(one, other []byte) (ret uint8) {
 	b := MaxPO/8 + 1
-	if l := uint8(len(one)); b > l {
-		b = l
+	if l := len(one); int(b) > l {
+		b = uint8(l)
 	}
-	if l := uint8(len(other)); b > l {
-		b = l
+	if l := len(other); int(b) > l {
+		b = uint8(l)
 	}
 	var m uint8 = 8
 	for i := uint8(0); i < b; i++ {
@@ -35,11 +35,11 @@ func Proximity(one, other []byte) (ret uint8) {
 
 func ExtendedProximity(one, other []byte) (ret uint8) {
 	b := ExtendedPO/8 + 1
-	if l := uint8(len(one)); b > l {
-		b = l
+	if l := len(one); int(b) > l {
+		b = uint8(l)
 	}
-	if l := uint8(len(other)); b > l {
-		b = l
+	if l := len(other); int(b) > l {
+		b = uint8(l)
 	}
 	var m uint8 = 8
 	for i := uint8(0); i < b; i++ {
